@@ -385,3 +385,188 @@ Proof.
   rewrite Hhd. rewrite <- (ztake_all (zlen hd - zlen []) hd) at 1 by (unfold zlen; simpl length; lia).
   apply AC; try reflexivity; try discriminate; try (unfold zlen; simpl length; lia); try apply accept_state_fields.
 Qed.
+
+Local Close Scope Z_scope.
+
+(* ================================================================== the contract, as lz4file.c uses it *)
+(* [dec_contract_open] is [FileProofs.dec_contract] with
+   - the LZ4F_getFrameInfo clause for the one size LZ4F_readOpen passes, min(19, file size) bytes,
+     instead of every k >= 11 (false of an LZ4F decoder: fd_dec_contract_refuted);
+   - files and inputs that are byte strings (the model's [byte] is Z).
+   It follows from [dec_contract] and is all that the read side of C20 needs (read_session_open). *)
+Section OpenContract.
+  Variable dst : Type.
+  Variable dst0 : dst.
+  Variable dGetFrameInfo : dst -> list byte -> fres (Z * nat) * dst.
+  Variable dDecompress : dst -> list byte -> nat -> File.dres * dst.
+
+  Definition dec_contract_open (dpos : list byte -> dst -> nat -> nat -> Prop) : Prop :=
+    forall F C, frame_ok F C -> bytes_ok F = true ->
+      (OPEN_MIN <= length F) /\
+      (exists bsid h d1,
+         dGetFrameInfo dst0 (firstn HEADER_MAX F) = (FOk (bsid, h), d1) /\
+         h <= Nat.min HEADER_MAX (length F) /\ h < length F /\
+         bufsize_of_bsid bsid <> None /\ dpos F d1 h 0) /\
+      (forall d i j, dpos F d i j -> i <= length F /\ j <= length C /\ (i = length F -> j = length C)) /\
+      (forall d i j s cap,
+         dpos F d i j -> i < length F -> s <> [] -> 1 <= cap -> agree s (skipn i F) -> bytes_ok s = true ->
+         exists hint c out d',
+           dDecompress d s cap = (DOk hint c out, d') /\
+           c <= Nat.min (length s) (length F - i) /\ length out <= cap /\
+           out = firstn (length out) (skipn j C) /\ 1 <= c + length out /\
+           dpos F d' (i + c) (j + length out)).
+
+  Lemma dec_contract_open_of_dec_contract dpos :
+    dec_contract dst dst0 dGetFrameInfo dDecompress dpos -> dec_contract_open dpos.
+  Proof.
+    intros H F C HF _. destruct (H F C HF) as (H1 & H2 & H3 & H4).
+    split; [exact H1|]. split; [|split; [exact H3|]].
+    - apply H2. unfold OPEN_MIN, HEADER_MAX. apply Z2Nat.inj_le; unfold LZ4F_HEADER_SIZE_MIN, C10_ENDMARK_SIZE, LZ4F_HEADER_SIZE_MAX; lia.
+    - intros d i j s cap A B C0 D E _. exact (H4 d i j s cap A B C0 D E).
+  Qed.
+
+  (* ---- the read side of Proofs/FileProofs.v, from the contract above ---- *)
+  Section ReadSideOpen.
+    Variable dpos : list byte -> dst -> nat -> nat -> Prop.
+    Hypothesis Hdec : dec_contract_open dpos.
+    Variable F C : list byte.
+    Hypothesis HF : frame_ok F C.
+    Hypothesis HbF : bytes_ok F = true.
+
+    Notation read_loop := (read_loop dst dDecompress).
+    Notation fread_lz4 := (fread_lz4 dst dDecompress).
+    Notation read_all := (read_all dst dDecompress).
+
+    Definition RInvO (r : rfile dst) (i j : nat) : Prop :=
+      dpos F (r_d dst r) i j /\ r_buf dst r ++ r_rest dst r = skipn i F /\ 1 <= r_max dst r.
+
+    Lemma dpos_bounds_o : forall d i j, dpos F d i j -> i <= length F /\ j <= length C /\ (i = length F -> j = length C).
+    Proof. destruct (Hdec F C HF HbF) as (_ & _ & H & _). exact H. Qed.
+
+    Lemma refill_spec_o : forall r i j, RInvO r i j ->
+      (refill dst r = None /\ i = length F) \/
+      (exists r1, refill dst r = Some r1 /\ RInvO r1 i j /\ r_buf dst r1 <> [] /\ r_max dst r1 = r_max dst r /\ i < length F).
+    Proof.
+      intros r i j (Hd & Hb & Hm). destruct (dpos_bounds_o _ _ _ Hd) as (Hi & _).
+      unfold refill. destruct (r_buf dst r) as [|x b] eqn:Eb.
+      - cbn [app] in Hb. destruct (firstn (r_max dst r) (r_rest dst r)) as [|y g] eqn:Eg.
+        + left. split; [reflexivity|].
+          assert (Hl : length (skipn i F) = 0).
+          { rewrite <- Hb. destruct (r_rest dst r) as [|z t]; [reflexivity|].
+            destruct (r_max dst r); [lia|discriminate]. }
+          rewrite skipn_length in Hl. lia.
+        + right. eexists. split; [reflexivity|]. unfold RInvO. cbn [r_d r_buf r_rest r_max].
+          rewrite <- Eg. rewrite firstn_skipn. repeat split; auto.
+          * rewrite Eg. discriminate.
+          * assert (Hl : 1 <= length (skipn i F)).
+            { rewrite <- Hb. destruct (r_rest dst r); [rewrite firstn_nil in Eg; discriminate|cbn; lia]. }
+            rewrite skipn_length in Hl. lia.
+      - right. exists r. rewrite Eb. repeat split; auto; try discriminate.
+        + unfold RInvO. rewrite Eb. auto.
+        + assert (Hl : 1 <= length (skipn i F)) by (rewrite <- Hb; cbn; lia).
+          rewrite skipn_length in Hl. lia.
+    Qed.
+
+    Lemma bytes_ok_skipn k (l : list byte) : bytes_ok l = true -> bytes_ok (skipn k l) = true.
+    Proof.
+      intro H. rewrite <- (firstn_skipn k l) in H. rewrite bytes_ok_app in H. apply andb_prop in H. apply H.
+    Qed.
+
+    Lemma read_loop_spec_o : forall fuel r size acc i j0,
+      RInvO r i (j0 + length acc) ->
+      acc = firstn (length acc) (skipn j0 C) -> length acc <= size ->
+      (length F - i) + (size - length acc) <= fuel ->
+      exists r' i',
+        read_loop fuel r size acc = (FOk (firstn size (skipn j0 C)), r') /\
+        RInvO r' i' (j0 + length (firstn size (skipn j0 C))) /\ r_max dst r' = r_max dst r.
+    Proof.
+      induction fuel as [|f IH]; intros r size acc i j0 Hinv Hacc Hle Hfuel.
+      - cbn [File.read_loop]. destruct (Nat.ltb (length acc) size) eqn:E.
+        + apply Nat.ltb_lt in E. lia.
+        + apply Nat.ltb_ge in E. assert (length acc = size) by lia. subst size.
+          exists r, i. rewrite <- Hacc. auto.
+      - cbn [File.read_loop]. destruct (Nat.ltb (length acc) size) eqn:E.
+        2:{ apply Nat.ltb_ge in E. assert (length acc = size) by lia. subst size.
+            exists r, i. rewrite <- Hacc. auto. }
+        apply Nat.ltb_lt in E.
+        destruct (refill_spec_o r i _ Hinv) as [[Hr Hi]|(r1 & Hr & Hinv1 & Hne & Hmax & Hi)]; rewrite Hr.
+        + pose proof Hinv as (Hd & _). destruct (dpos_bounds_o _ _ _ Hd) as (_ & _ & Hall). specialize (Hall Hi).
+          assert (Hl : length (skipn j0 C) = length acc) by (rewrite skipn_length; lia).
+          assert (Heq : firstn size (skipn j0 C) = acc).
+          { rewrite (firstn_all2 (n := size)) by lia. rewrite Hacc.
+            rewrite (firstn_all2 (n := length acc)) by lia. reflexivity. }
+          rewrite Heq. exists r, i. auto.
+        + destruct Hinv1 as (Hd1 & Hb1 & Hm1).
+          destruct (Hdec F C HF HbF) as (_ & _ & _ & Hstep).
+          assert (Hbb : bytes_ok (r_buf dst r1) = true).
+          { pose proof (bytes_ok_skipn i F HbF) as B. rewrite <- Hb1, bytes_ok_app in B. apply andb_prop in B. apply B. }
+          destruct (Hstep (r_d dst r1) i (j0 + length acc) (r_buf dst r1) (size - length acc) Hd1 Hi Hne ltac:(lia))
+            as (hint & c & out & d' & Hdd & Hc & Ho & Hout & Hprog & Hd'); [|exact Hbb|].
+          { unfold agree. assert (length (r_buf dst r1) <= length (skipn i F)) by (rewrite <- Hb1, app_length; lia).
+            rewrite Nat.min_l by lia. rewrite <- Hb1. rewrite firstn_app, Nat.sub_diag, firstn_O, app_nil_r. reflexivity. }
+          rewrite Hdd.
+          destruct (IH (File.mkR dst d' (r_rest dst r1) (skipn c (r_buf dst r1)) (r_max dst r1)) size (acc ++ out) (i + c) j0)
+            as (r' & i' & Hl & Hinv' & Hmax').
+          * unfold RInvO. cbn [r_d r_buf r_rest r_max]. rewrite app_length. rewrite Nat.add_assoc.
+            split; [exact Hd'|]. split; [|exact Hm1].
+            rewrite <- skipn_skipn'. rewrite <- Hb1. rewrite skipn_app.
+            replace (c - length (r_buf dst r1)) with 0 by lia. reflexivity.
+          * rewrite app_length. rewrite firstn_add. rewrite <- Hacc.
+            rewrite skipn_skipn'. rewrite <- Hout. reflexivity.
+          * rewrite app_length. lia.
+          * rewrite app_length. lia.
+          * exists r', i'. split; [exact Hl|]. split; [exact Hinv'|]. cbn [r_max] in Hmax'. congruence.
+    Qed.
+
+    Lemma fread_spec_o : forall r i j size, RInvO r i j ->
+      exists r' i',
+        fread_lz4 r size = (FOk (firstn size (skipn j C)), r') /\
+        RInvO r' i' (j + length (firstn size (skipn j C))).
+    Proof.
+      intros r i j size Hinv. unfold File.fread_lz4.
+      destruct (read_loop_spec_o (length (r_rest dst r) + length (r_buf dst r) + size + 1) r size [] i j)
+        as (r' & i' & H1 & H2 & _); cbn [length]; auto; try lia.
+      - rewrite Nat.add_0_r. exact Hinv.
+      - destruct Hinv as (_ & Hb & _).
+        assert (length (skipn i F) = length (r_buf dst r) + length (r_rest dst r)) by (rewrite <- Hb, app_length; reflexivity).
+        rewrite skipn_length in H. lia.
+      - eauto.
+    Qed.
+
+    Lemma read_all_spec_o : forall sizes r i j, RInvO r i j ->
+      read_all r sizes = chop (skipn j C) sizes.
+    Proof.
+      induction sizes as [|s rest IH]; intros r i j Hinv; [reflexivity|].
+      cbn [File.read_all chop].
+      destruct (fread_spec_o r i j s Hinv) as (r' & i' & Hf & Hinv').
+      rewrite Hf. f_equal. rewrite (IH r' i' _ Hinv'). f_equal.
+      rewrite firstn_length, <- skipn_skipn'.
+      destruct (Nat.le_ge_cases s (length (skipn j C))) as [H|H].
+      - rewrite Nat.min_l by lia. reflexivity.
+      - rewrite Nat.min_r by lia. rewrite skipn_all. rewrite skipn_all2 by lia. reflexivity.
+    Qed.
+
+    Lemma readOpen_spec_o : forall junk,
+      exists r h, readOpen dst dst0 dGetFrameInfo true junk F = FOk r /\ RInvO r h 0.
+    Proof.
+      intros junk. destruct (Hdec F C HF HbF) as (Hlen & Hinfo & _).
+      destruct Hinfo as (bsid & h & d1 & Hg & Hh & Hhl & Hbs & Hd).
+      unfold readOpen. rewrite firstn_length.
+      destruct (Nat.ltb (Nat.min HEADER_MAX (length F)) OPEN_MIN) eqn:E.
+      { apply Nat.ltb_lt in E.
+        assert (Hmm : OPEN_MIN <= HEADER_MAX).
+        { unfold OPEN_MIN, HEADER_MAX. apply Z2Nat.inj_le; unfold LZ4F_HEADER_SIZE_MIN, C10_ENDMARK_SIZE, LZ4F_HEADER_SIZE_MAX; lia. }
+        lia. }
+      rewrite Hg. destruct (bufsize_of_bsid bsid) as [m|] eqn:Em; [|congruence].
+      eexists _, h. split; [reflexivity|]. unfold RInvO. cbn [r_d r_buf r_rest r_max].
+      split; [exact Hd|]. split; [apply skipn_firstn_rest; exact Hh|]. eapply bufsize_pos; eauto.
+    Qed.
+
+    Lemma read_session_open : forall junk sizes,
+      read_session dst dst0 dGetFrameInfo dDecompress true junk F sizes = FOk (chop C sizes).
+    Proof.
+      intros junk sizes. unfold read_session. destruct (readOpen_spec_o junk) as (r & h & Ho & Hinv).
+      rewrite Ho. rewrite (read_all_spec_o sizes r h 0 Hinv). reflexivity.
+    Qed.
+  End ReadSideOpen.
+End OpenContract.
